@@ -32,10 +32,10 @@ func writeStreamEstablishHeader(w io.Writer, msg *StreamEstablish) (int, error) 
 func readAtLeast(r io.Reader, n, min int, buf []byte) (int, error) {
 	for n < min {
 		nr, err := r.Read(buf[n:])
-		if err != nil {
+		n += nr
+		if err != nil && n < min {
 			return n, err
 		}
-		n += nr
 	}
 	return n, nil
 }
